@@ -7,12 +7,21 @@ checks = {
  "C02": ("exploration", "trace acceptor over tracker events + task-side log: validation order, justification of every execution, at-most-once, idempotence probes, exact-checker minimality", PBT + "; trace acceptor over generated histories", "§7 C02"),
  "C03": ("exploration", "complete-report bottom-up histories followed by probe sessions requiring every task: nothing known executes, outputs/resources equal from-scratch; acceptor demands complete checking/scheduling", PBT + "; probe sessions + from-scratch differential", "§7 C03"),
  "C04": ("exploration", "bottom-up trace acceptor: executions only of justified scheduled tasks or first-time tasks, once, never before a scheduled dependency, consistent checks never schedule", PBT + "; trace acceptor", "§7 C04"),
+ "C05": ("exploration", "well-formed programs with one injected read without the required task dependency; access-time oracle on the task-side log and shadow record, in every order, session split and build mode", PBT + " with injected violations; task-side/shadow-record oracle", "§7 C05"),
+ "C06": ("exploration", "well-formed programs with an injected second writer (context write and written_to); write function must not run / call must not return / abort must be an overlap error; negative half: single writers re-executed never overlap", PBT + " with injected violations; task-side/shadow-record oracle", "§7 C06"),
+ "C07": ("exploration", "well-formed programs with an injected (optionally value-guarded) back-require closing a cycle of any length; interpreter stack is ground truth: nothing may execute or return after requiring an executing task, abort must be a cycle error", PBT + " with injected violations; task-side stack oracle with recursion sentinel", "§7 C07"),
+ "C08": ("exploration", "read-only store dump (hook) compared edge by edge (kind, target, checker text, stamp text, order) and output with the dependencies the last execution created per the task-side log, after every session; plus event-level consequences", PBT + "; store dump vs shadow record (hook gohla_pie_verif)", "§7 C08"),
  "C09": ("exploration", "instrumented checkers/handles log every stamp and check call; timeliness and identity of stamps and decision fidelity checked on every generated history", PBT + "; instrumentation oracle", "§7 C09"),
  "C10": ("exploration", "generated operation sequences against a naive reference graph plus exhaustive small-scope enumeration", PBT + " over operation sequences; reference model; small-scope exhaustive enumeration", "§7 C10"),
  "C11": ("exploration", "all queries for all node pairs after every generated operation against the reference graph, plus exhaustive small scopes", PBT + " over operation sequences; reference model; small-scope exhaustive enumeration", "§7 C11"),
+ "C12": ("exploration", "exhaustive over all pairs of an 8-value Result domain x 5 checkers x 2 routes, plus generated pairs over larger types; oracle = documented relation", PBT + " + exhaustive small domain; relational oracle", "§7 C12"),
+ "C13": ("exploration", "generated (state, state, checker) triples on a real temp directory with explicitly set mtimes; stamp-route agreement, exact detection of the observed aspect, reader position, writer semantics", PBT + " over filesystem states (explicit state machine, explicit mtimes)", "§7 C13"),
+ "C14": ("exploration", "generated operation sequences over four key types with equal raw keys and raw typed state calls on four resource types against a reference map and slot model, everything compared after every op", PBT + " over operation sequences; reference model", "§7 C14"),
+ "C15": ("exploration", "generated key lists from six same-bytes task types and two resource types inside a real Pie instance plus all-pairs dyn KeyObj equality/hash", PBT + "; (type,value) identity model", "§7 C15"),
  "C16": ("exploration", "every generated case replayed on fresh instances in-process and in fresh processes; complete event/operation log must be identical", PBT + "; replay-equality oracle within and across processes", "§7 C16"),
  "C17": ("exploration", "stack-machine nesting check, task-side/tracker agreement, composite stream equality, EventTracker projection; plus API-level call sequences against reference helpers", PBT + "; stack-machine invariant over event streams; reference implementations of helpers", "§7 C17"),
  "C18": ("fault_enumeration", "generated fault sets for Faulty checkers over generated histories: errors reported exactly, owners re-executed/scheduled, no abort, results equal from-scratch", PBT + " with injected checker faults (random and enumerated fault subsets)", "§7 C18"),
+ "C20": ("exploration", "(a) static-role programs never abort; (b) role-changing programs well-formed in every state: an abort is spurious unless the from-scratch evaluator of all known tasks aborts too; four stale-edge patterns are recorded findings with model-only signatures", PBT + "; from-scratch evaluator as violation oracle; role-changing program generator", "§7 C20"),
  "C19": ("fault_enumeration", "panic injected at generated and, for sampled cases, every operation point of a build; later builds must equal from-scratch and never fail internally", PBT + " with injected aborts; crash-point enumeration for sampled cases", "§7 C19"),
 }
 notes = {}
@@ -29,7 +38,7 @@ m = {
  },
  "engines": [{"name": "pv", "path": "harness", "serves_properties": sorted(checks), "kind_free_text": "Rust crate: proptest-driven constructive generators (task-program language, DAG op sequences), from-scratch evaluator, shadow dependency record, trace acceptors, instrumented resource/checkers/tracker, own shrink loop, JSON replay files"}],
  "checks": [],
- "notes": "Known findings are listed in known_findings.json; fix: commits in /repo: b2681e4 (D1), dffaa25 (D3). See DESIGN.md.",
+ "notes": "Known findings are listed in known_findings.json (C03-F1, C05-F1, C08-F1/F2, C20-F1..F4); fix: commits in /repo: b2681e4 (D1 add_edge order), dffaa25 (D3 reserved edge after abort), 267eae4 (D4 directory hash), 148a41c (D2 is_build_end). See DESIGN.md.",
  "not_applicable": [],
 }
 for p in all_props:
